@@ -17,6 +17,8 @@ def gen_ring_case(rng, ow, elem, maxops):
     nextv = [10 + rng.below(5)]
 
     def val():
+        if elem == 3 and rng.chance(1, 3):
+            return 0          # floats: zeros of either sign (equal elements with different bytes)
         nextv[0] += 1 + rng.below(2)
         return nextv[0]
     # first buffer
@@ -43,6 +45,7 @@ def gen_ring_case(rng, ow, elem, maxops):
         if bias == "pop": w["ob"] = 7; w["of"] = 7
         if bias == "front": w["pf"] = 12; w["of"] = 6
         if bias == "resize": w["rs"] = 9
+        if elem == 3: w["eq"] = 4; w["cc"] = 3
         kind = rng.weighted(list(w.items()))
         if kind in ("pb", "pf") and usable:
             b = rng.choice(usable)
@@ -126,7 +129,7 @@ class RingSpec(Spec):
     component = "ring"
     harness_name = "ring"
     harness_sources = ("ring.cpp",)
-    elem_types = (0, 2)   # 0 = int64, 1 = tracked with event comparison, 2 = tracked, events not compared
+    elem_types = (0, 2, 3)   # 0 = int64, 1 = tracked with event comparison, 2 = tracked, events not compared, 3 = float (signed zeros)
     quick_cases = 2500
     thorough_cases = 90000
     search_cases = 8000
@@ -138,7 +141,7 @@ class RingSpec(Spec):
             elem = rng.choice(self.elem_types)
             maxops = rng.choice([6, 12, 25, 40])
             ops = gen_ring_case(rng, ow, elem, maxops)
-            out.append((f"ow={ow} elem={['int', 'tracked+events', 'tracked'][elem]}", [[ow, 1, elem]] + ops))
+            out.append((f"ow={ow} elem={['int', 'tracked+events', 'tracked', 'float'][elem]}", [[ow, 1, elem]] + ops))
         return out
 
     def nontrivial(self, lines):
@@ -155,7 +158,7 @@ class RingSpec(Spec):
             tags.add("op:" + names.get(l.split()[0], "?"))
         hd = lines[0].split()
         tags.add("overwrite" if hd[0] == "1" else "no-overwrite")
-        tags.add("elem:int" if hd[2] == "0" else "elem:tracked")
+        tags.add({"0": "elem:int", "3": "elem:float"}.get(hd[2], "elem:tracked"))
         tags.add("len:%s" % ("1-8" if len(lines) <= 9 else "9-20" if len(lines) <= 21 else "21+"))
         return sorted(tags)
 
